@@ -97,6 +97,19 @@ func japiErrorForLexeme(lex *scanner.Lexeme, msg string) *jerr.JApiError {
 	return jerr.NewJApiError(msg, lex.File(), lex.Begin())
 }
 
+// checkIncludeLineTail checks the first lexeme after an included file: the INCLUDE
+// directive takes the file name only, so neither a second parameter nor an
+// annotation may follow it (they must not leak into another directive).
+func checkIncludeLineTail(lex *scanner.Lexeme) *jerr.JApiError {
+	switch lex.Type() { //nolint:exhaustive // Only these two can follow the file name on the same line.
+	case scanner.Parameter:
+		return japiErrorForLexeme(lex, fmt.Sprintf("%s %q", jerr.IncorrectParameter, lex.Value().Unquote().String()))
+	case scanner.Annotation:
+		return japiErrorForLexeme(lex, jerr.AnnotationIsForbiddenForTheDirective)
+	}
+	return nil
+}
+
 func isIncludeKeyword(lex *scanner.Lexeme) bool {
 	return lex != nil &&
 		lex.Type() == scanner.Keyword &&
